@@ -1,5 +1,4 @@
-import DmlcModel.Wrap.Model
-import DmlcModel.Split.Model
+import DmlcModel.Wrap.Base
 import Driver.Proto
 /-! line-protocol driver of the `Wrap` model (protocol: see harness/h_wrappers.cc).  The abstract base
 split of `DmlcModel.Wrap` is instantiated with the chunk sequence of the `Split` model. -/
@@ -34,25 +33,8 @@ structure DSt where
 
 def fmtOf (isText : Bool) : Split.Fmt := if isText then Split.Fmt.text else Split.Fmt.recordio
 
-def convErr : Split.Err → Err
-  | .check => .check
-  | _ => .oob
-
-/-- the chunk sequence of a pass of the bare split: `NextChunkEx` into a cell until it returns false -/
-def loadAll (F : Split.Fmt) : Nat → Split.Base → Split.Chunk → List Chunk → Except Err (List Chunk)
-  | 0, _, _, acc => .ok acc
-  | fuel + 1, b, c, acc =>
-    match Split.load F b c with
-    | .error e => .error (convErr e)
-    | .ok (false, _, _) => .ok acc
-    | .ok (true, b', c') => loadAll F fuel b' c' (acc ++ [{ bytes := c'.rest, words := c'.dataWords }])
-
-def basePass (isText : Bool) (files : List Bytes) (w defw : Nat) : BasePass := fun k n =>
-  if n = 0 then .error .check
-  else
-    match Split.mkBase (fmtOf isText) files k n w defw with
-    | .error e => .error (convErr e)
-    | .ok b => loadAll (fmtOf isText) (Split.totalSize files + files.length + 8) b { dataWords := w + 1 } []
+def basePass (isText : Bool) (files : List Bytes) (w defw : Nat) : BasePass :=
+  splitPass (fmtOf isText) files w defw
 
 def toChunk (w : Win) : Split.Chunk := { dataWords := w.cap / 4, begin := w.begin, rest := w.rest }
 def ofChunk (c : Split.Chunk) : Win := { cap := 4 * c.dataWords, begin := c.begin, rest := c.rest }
